@@ -14,19 +14,36 @@ Open Scope Z_scope.
       values — and every mask kind gives exactly the single pass over the rows
       NumPy indexing selects. *)
 Theorem C04_blocks_float r gk chunks ng m nt :
-  kernel_value_reducer r -> (0 < nt)%nat -> chunks <> [] ->
+  kernel_value_reducer r -> sum_needs_no_nulls fops r -> (0 < nt)%nat -> chunks <> [] ->
   length gk = length (concat chunks) -> wf_mask (length gk) m -> covered chunks m ->
   group_func_wrap fops r gk chunks ng m nt = Ok (P fops r ng (sel_rows fops gk (concat chunks) m)).
-Proof. exact (group_func_wrap_any_split fops fops_laws r gk chunks ng m nt). Qed.
+Proof. exact (group_func_wrap_any_split fops fops_laws fops_sum_closed r gk chunks ng m nt). Qed.
 Print Assumptions C04_blocks_float.
 
-Theorem C04_blocks_int nullable nullv r gk chunks ng m nt :
+(* integer dtypes that hold no nulls (int8..int64 arrays, unsigned, bool) *)
+Theorem C04_blocks_int nullv r gk chunks ng m nt :
   kernel_value_reducer r -> (0 < nt)%nat -> chunks <> [] ->
   length gk = length (concat chunks) -> wf_mask (length gk) m -> covered chunks m ->
-  group_func_wrap (zops nullable nullv) r gk chunks ng m nt
-  = Ok (P (zops nullable nullv) r ng (sel_rows (zops nullable nullv) gk (concat chunks) m)).
-Proof. exact (group_func_wrap_any_split _ (zops_laws nullable nullv) r gk chunks ng m nt). Qed.
+  group_func_wrap (zops false nullv) r gk chunks ng m nt
+  = Ok (P (zops false nullv) r ng (sel_rows (zops false nullv) gk (concat chunks) m)).
+Proof.
+  exact (fun Hr => group_func_wrap_any_split _ (zops_laws false nullv) (zops_never_null_closed nullv)
+                     r gk chunks ng m nt Hr (fun _ _ => eq_refl)).
+Qed.
 Print Assumptions C04_blocks_int.
+
+(* temporal values (int64 view, NaT = sentinel): sums need "no partial sum equals the sentinel" *)
+Theorem C04_blocks_temporal r gk chunks ng m nt :
+  sum_closed (zops true 0) ->
+  kernel_value_reducer r -> r <> Rsum -> (0 < nt)%nat -> chunks <> [] ->
+  length gk = length (concat chunks) -> wf_mask (length gk) m -> covered chunks m ->
+  group_func_wrap (zops true 0) r gk chunks ng m nt
+  = Ok (P (zops true 0) r ng (sel_rows (zops true 0) gk (concat chunks) m)).
+Proof.
+  exact (fun SC Hr Hne => group_func_wrap_any_split _ (zops_laws true 0) SC r gk chunks ng m nt Hr
+                            (fun E => False_ind _ (Hne E))).
+Qed.
+Print Assumptions C04_blocks_temporal.
 
 (* 2. The single pass equals the per-group definition (value and count), for every
       group, including empty and all-null ones. *)
@@ -46,12 +63,12 @@ Proof. exact (P_meets_definition _ (zops_laws nullable nullv) r op ng rows g). Q
 Print Assumptions C04_single_pass_int.
 
 (* plain integer sum: every selected row is added (integer arrays hold no nulls) *)
-Theorem C04_single_pass_intsum nullable nullv ng rows g :
-  let o := zops nullable nullv in
+Theorem C04_single_pass_intsum nullv ng rows g :
+  let o := zops false nullv in
   (g < ng)%nat ->
   get (null o) (fst (P o Rsum ng rows)) g = sum_list o (group_vals g rows)
   /\ get 0 (snd (P o Rsum ng rows)) g = Z.of_nat (length (group_vals g rows)).
-Proof. exact (P_sum_all _ (zops_laws nullable nullv) ng rows g). Qed.
+Proof. exact (P_sum_all _ (zops_laws false nullv) ng rows g (fun _ => eq_refl)). Qed.
 Print Assumptions C04_single_pass_intsum.
 
 (* counts of the counting kernels add up over every list of blocks *)
@@ -105,7 +122,7 @@ Print Assumptions C04_reducers_are_the_source's.
 Example C04_example :
   let gk := [0; 1; -1; 1; 0] in
   let chunks := [[fl_of_Z 1; FNan]; [fl_of_Z 2; fl_of_Z 3; fl_of_Z 4]] in
-  kernel_value_reducer Rnanmin /\ chunks <> [] /\ length gk = length (concat chunks) /\
+  kernel_value_reducer Rnanmin /\ sum_needs_no_nulls fops Rnanmin /\ chunks <> [] /\ length gk = length (concat chunks) /\
   wf_mask (length gk) MNone /\ covered chunks MNone /\
   group_func_wrap fops Rnanmin gk chunks 2 MNone 1 = Ok ([fl_of_Z 1; fl_of_Z 3], [2; 1]).
 Proof. repeat split; try constructor; try discriminate; vm_compute; reflexivity. Qed.
